@@ -41,6 +41,9 @@ def reduction(prog, size=None, user=None):
     if not (isinstance(v, tuple) and len(v) == 2 and isinstance(v[0], StrMapV)):
         raise Undecided("reduce_alphabet result shape: %r" % (v,), f.loc())
     alpha = v[1]
+    if isinstance(alpha, (StrMapV, SeqV)):
+        # the alphabet was accumulated inside the loop over the sequence: it depends on which residues occur
+        return ("ok", v[0].table, None)
     if not isinstance(alpha, (list, tuple)) and not hasattr(alpha, "items"):
         raise Undecided("alphabet is not a list", f.loc())
     alpha = list(alpha.items) if hasattr(alpha, "items") and not isinstance(alpha, dict) else list(alpha)
@@ -48,6 +51,8 @@ def reduction(prog, size=None, user=None):
 
 
 def run(ck, prog):
+    from props.common import check_memos
+    ck.attempt(check_memos, ck, prog)
     ck.level = "proof"
     ck.extra["exhaustive"] = True
     ck.explanation = (
@@ -88,8 +93,8 @@ def run(ck, prog):
         ck.ob("PART-groups", construct, all(table.get(table[L]) == table[L] for L in table), expected="map o map = map",
               found="idempotent" if all(table.get(table[L]) == table[L] for L in table) else "not idempotent",
               slot="size=%d:idempotent" % size, where=f.loc())
-        ck.ob("TAB-alphabet", construct, sorted(alpha) == sorted(reps) and len(alpha) == len(set(alpha)),
-              expected=sorted(reps), found=sorted(map(str, alpha)), slot="size=%d:alphabet" % size, where=f.loc(),
+        ck.ob("TAB-alphabet", construct, alpha is not None and sorted(alpha) == sorted(reps) and len(alpha) == len(set(alpha)),
+              expected=sorted(reps), found=sorted(map(str, alpha)) if alpha is not None else "depends on the sequence", slot="size=%d:alphabet" % size, where=f.loc(),
               note="the returned alphabet lists exactly the representatives")
     ck.count("(size, residue) cells", cells)
     ck.floor("(size, residue) cells", cells, 240)
@@ -133,8 +138,10 @@ def _user(ck, prog, f, construct):
         ck.ob("PART-user", construct, ok, expected="applied letter by letter", found=res[1] if res[0] == "ok" else res,
               slot="user:%s:map" % name, where=f.loc())
         if res[0] == "ok":
-            ck.ob("PART-user", construct, sorted(res[2]) == sorted(set(user.values())) and len(res[2]) == len(set(res[2])),
-                  expected=sorted(set(user.values())), found=sorted(res[2]), slot="user:%s:alphabet" % name, where=f.loc())
+            ck.ob("PART-user", construct, res[2] is not None and sorted(res[2]) == sorted(set(user.values())) and len(res[2]) == len(set(res[2])),
+                  expected=sorted(set(user.values())), found=sorted(res[2]) if res[2] is not None else "built from the residues that occur in the sequence",
+                  slot="user:%s:alphabet" % name, where=f.loc(),
+                  note="the alphabet (and with it the entropy base of the WF complexity) must not depend on the sequence")
         n += 1
     for L in LETTERS:
         d = dict(three)
